@@ -3,6 +3,7 @@ package props
 import (
 	"encoding/json"
 	"fmt"
+	"github.com/remieven/ysgo/markup"
 	"os"
 	"os/exec"
 	"runtime"
@@ -148,6 +149,7 @@ func (p c18) Run(c *core.Ctx) {
 		goschedSeeds[g] = r.U64()
 	}
 	start := make(chan struct{})
+	warmupErrs := make([]int, G)
 	firstCreated := make(chan struct{})
 	var closeOnce sync.Once
 	var wg sync.WaitGroup
@@ -157,6 +159,15 @@ func (p c18) Run(c *core.Ctx) {
 			defer wg.Done()
 			gr := core.NewRand(goschedSeeds[g])
 			<-start
+			// the very first thing every goroutine does, at the same instant, is to parse marked-up lines on a
+			// parser value of its own - every marker kind, replacement markers in open form included - so that
+			// whatever the markup package keeps at package level is first touched concurrently
+			var lp markup.LineParser
+			for _, l := range c18MarkupWarmup {
+				if res, err := lp.ParseMarkup(l); err != nil || res == nil {
+					warmupErrs[g]++
+				}
+			}
 			for k, j := range jobs[g] {
 				if k == 0 {
 					firstStart[g] = int64(time.Since(base))
@@ -194,6 +205,12 @@ func (p c18) Run(c *core.Ctx) {
 		return
 	}
 	c.Feature("creation-from-a-reader-that-waits-for-another-creation")
+	for g, n := range warmupErrs {
+		if n > 0 {
+			c.Violate("a well-formed marked-up line failed to parse on a goroutine's own parser value during the concurrent phase", map[string]any{"goroutine": g, "failed_lines": n})
+			return
+		}
+	}
 	// the shared snapshot is the host's value: whatever the runners did with it, it is what it was
 	if d := mon.SnapEq(startSnapshot(), shared); d != "" || len(shared.VisitedNodes) != len(startSnapshot().VisitedNodes) {
 		c.Violate("runners restored from one shared snapshot value modified it", map[string]any{"goroutines": G, "difference": d,
@@ -291,6 +308,13 @@ func (p c18) Run(c *core.Ctx) {
 	if c.Idx < 3 {
 		c.Sample(map[string]any{"goroutines": G, "runners": id, "steps": steps, "first_48_steps_by_runner_id": strings.Join(prefix, ","), "runner_switches": switches})
 	}
+}
+
+var c18MarkupWarmup = []string{
+	"Mae: [b]bold[/b] [wave a=1 /] [a][c]y[/a]z[/c] [/]",
+	"[nomarkup][raw] text[/nomarkup] and [select value=m m=\"he\" f=\"she\"]x[/select]",
+	"[plural value=2 one=\"% cat\" other=\"% cats\"]x[/plural] [ordinal value=3 one=\"%st\" two=\"%nd\" few=\"%rd\" other=\"%th\"]x[/ordinal]",
+	"[plural value=1 one=\"% cat\" other=\"% cats\" /] [ordinal value=22 one=\"%st\" two=\"%nd\" few=\"%rd\" other=\"%th\" /] [select value=f m=\"he\" f=\"she\" /]",
 }
 
 const c18Boot = "title: Boot\n---\nbooting\n<<jump N1>>\n===\n"
